@@ -26,6 +26,29 @@ Section Tie.
     cbn [for_first next_elapse]. destruct (ev_delay e) as [t|]; [destruct (tpos t); [reflexivity|exact IH]|exact IH].
   Qed.
 
+  (* the full specification of the generated get_next_elapse_time: the delay of the FIRST event that carries a positive delay,
+     and zero exactly when no event does *)
+  Definition no_positive_delay (l : list Ev) : Prop := forall e t, In e l -> ev_delay e = Some t -> tpos t = false.
+  Theorem src_next_elapse_spec (evs : list Ev) :
+    (no_positive_delay evs /\ src_get_next_elapse_time Ev T ev_delay tzero tpos evs = tzero) \/
+    (exists pre e post t, evs = pre ++ e :: post /\ no_positive_delay pre /\ ev_delay e = Some t /\ tpos t = true /\
+                          src_get_next_elapse_time Ev T ev_delay tzero tpos evs = t).
+  Proof.
+    rewrite src_next_elapse_is_next_elapse. induction evs as [|e r IH].
+    - left. split; [intros e t []|reflexivity].
+    - cbn [next_elapse]. destruct (ev_delay e) as [t|] eqn:Ed.
+      + destruct (tpos t) eqn:Ep.
+        * right. exists [], e, r, t. repeat split; auto. intros e' t' [].
+        * destruct IH as [[Hn Hz]|[pre [e0 [post [t0 [Er [Hn [Hd [Hp Hv]]]]]]]]].
+          -- left. split; [|exact Hz]. intros e' t' [<-|Hi] Hd'; [congruence|eapply Hn; eauto].
+          -- right. exists (e :: pre), e0, post, t0. repeat split; auto; [rewrite Er; reflexivity|].
+             intros e' t' [<-|Hi] Hd'; [congruence|eapply Hn; eauto].
+      + destruct IH as [[Hn Hz]|[pre [e0 [post [t0 [Er [Hn [Hd [Hp Hv]]]]]]]]].
+        * left. split; [|exact Hz]. intros e' t' [<-|Hi] Hd'; [congruence|eapply Hn; eauto].
+        * right. exists (e :: pre), e0, post, t0. repeat split; auto; [rewrite Er; reflexivity|].
+          intros e' t' [<-|Hi] Hd'; [congruence|eapply Hn; eauto].
+  Qed.
+
   Theorem handlers_drive_exec_op (o : op T Name) (st : St) (b : list Ev) :
     exec_gen Ev Act St (playlog Ev Act Ck T) play (mkpl St Ev Act Ck T save clock)
       (src_handler Ev Act T Name mk_act star ev_name ev_delay name_eqb tzero tpos tis0 o b) st b
